@@ -1900,8 +1900,10 @@ class Generator:
                 return      # `optional=1`: a contract for an item the source may or may not define (e.g. a trait method with a default)
             raise
         parts = [x.strip() for x in path.split("/")]
-        if len(parts) == 2 and parts[0].startswith("impl ") and " for " in parts[0] and parts[1].startswith("fn "):
-            self.trait_cover.setdefault((file, parts[0]), set()).add(parts[1][3:].strip())
+        if len(parts) >= 2 and parts[-2].startswith("impl ") and " for " in parts[-2] and parts[-1].startswith("fn "):
+            # (also for impls nested in function bodies: `.../fn visit_map/impl MapAccess for FilterMap/fn next_key_seed` -
+            # seed C05g added `next_entry_seed` to such an impl and went unseen while only two-part paths were covered)
+            self.trait_cover.setdefault((file, "/".join(parts[:-1])), set()).add(parts[-1][3:].strip())
         ci = loc["ci"]
         a, b = ci[loc["start"]], ci[loc["end"] - 1] + 1
         item_src = src_text[toks[a].pos: toks[b - 1].pos + len(toks[b - 1].text)]
